@@ -1,3 +1,16 @@
+/-!
+# DESIGN-PHASE SEED (partly superseded) - time rule of `proxy/bulk` (C10)
+
+* `minI`, `maxI`, `subSat` (`time.Time.Sub`), `negWrap` (int64 unary minus) are LIVE: `Model/BulkTime.lean` imports
+  and reuses them unchanged.
+* `documentDelayed` below is the comparison as the code was BEFORE fix commit 5825a86 (`docDelay < 0 && -docDelay >
+  futureDrift`); it is kept only for the historical counterexample (`delayed_counterexample`, `c10_time_rule_counterexample`).
+  It is NOT the current code: the model of `documentDelayed` at HEAD is `SV.BulkTime.documentDelayedRepaired`
+  (Model/BulkTime.lean), and `documentDelayedFixed` below is its specification-level form.
+* Relation, proved in `Consistency/TimeRule.lean`: `cons_time_written_eq_repaired` (equal for `docDelay ≠ MinInt64`,
+  `0 ≤ futureDrift`), `cons_time_written_ne_repaired_witness` (they differ at the saturated delay `MinInt64`),
+  `cons_time_repaired_eq_fixed` / `cons_time_repaired_ne_fixed_witness` (`Repaired` = `Fixed` unless `futureDrift = MinInt64`).
+-/
 namespace SV.TimeRule
 
 def minI : Int := -9223372036854775808
